@@ -1,5 +1,5 @@
 /*@unit {
- 'kind': 'proof', 'mode': 'legacy',
+ 'kind': 'proof', 'mode': 'dfcc',
  'functions': ['debug_printdec_double_prec', 'debug_printdec_float_prec', 'debug_printdec_signed_long_long', 'debug_print', 'debug_write'],
  'clauses': 'for EVERY binary64 bit pattern (ENTRY=0) / binary32 bit pattern (ENTRY=1, through debug_printdec_float_prec) and every int prec: NaN => exactly "nan", infinity => exactly "+inf" / "-inf"; finite (|a| < 2^64, prec <= 9) => the emitted character stream is accepted by -?[0-9]+\\.[0-9]{prec} (prec >= 1; for prec <= 0 by -?[0-9]+): a "-" first exactly when a < 0, at least one integer digit, one point, exactly prec fraction digits, no other character; the float->integer casts stay in range (conversion obligations).  The code\'s running fraction o equals the spec\'s frac(|a|)*10^i in every iteration (co-simulation), loop closed by an invariant for arbitrary prec',
  'params': {'ENTRY': [0, 1]},
@@ -11,7 +11,7 @@
                    'o == g_s',
                    'o >= 0.0 && o < C12_POW10D(_iteration)',
                    'g_z + C12_DIGITS(o) == (unsigned)_iteration',
-                   'g_st == (g_z ? C12_S_FRAC : C12_S_DOT) && g_fd == g_z && g_on >= 2'],
+                   'g_st == (g_z ? C12_S_FRAC : C12_S_DOT) && g_fd == g_z'],
     'decreases': 'prec - _iteration'},
    {'file': 'igris/dprint/dprint_func_impl.c', 'func': 'debug_printdec_double_prec', 'ghost': 'spec_dprint_step();', 'at': 'body-begin', 'loop': 0},
    {'file': 'igris/dprint/dprint_func_impl.c', 'func': 'debug_printdec_double_prec', 'ghost': 'spec_dprint_frac_region(KF_C12_dprint_fracdigits, prec);', 'at': 'before', 'anchor': 'o += 0.5;'},
@@ -21,7 +21,7 @@
  'checks_extra': ['--conversion-check', '--float-overflow-check', '--nan-check'],
  'solver': 'cadical',
  'kf': ['C12_dprint_range', 'C12_dprint_prec10', 'C12_dprint_fracdigits'],
- 'witness': {'unwind': 23},
+ 'witness': {'unwind': 6},
  'note': 'in the concretisation / replay runs the real debug_printdec_uint64 runs (replay links the real code)',
  'trusted': ['debug_putchar is the platform hook (dprint.h: implemented outside the library); the unit supplies the observing acceptor c12_sink for it'],
  'assumptions': ['|a| < 2^64 for finite arguments (integer part goes through a uint64_t cast): beyond it known finding C12_dprint_range',
@@ -59,6 +59,9 @@ void harness(void)
     int p10 = !special && prec >= 10;
     __CPROVER_assume(KF_C12_dprint_prec10 == 0 ? 1 : KF_C12_dprint_prec10 == 1 ? !p10 : p10);
     __CPROVER_assume(KF_C12_dprint_fracdigits == 2 ? !special : 1);
+#ifdef WITNESS_MODE /* concretisation: small cases only (as VC_MAXOBJ for objects) */
+    __CPROVER_assume(prec <= 3 && (special || (a > -1000.0 && a < 1000.0)));
+#endif
     c12_sink_reset();
     double aa = a < 0 ? -a : a;
     if (!special && !big)
